@@ -23,11 +23,15 @@ CLAIMS = {
  "C20": ("pure-l0", "§6 C20", "Config.tla: accept/reject/silent verdict over the fault lattice of the configuration document; TLC enumerates all documents with up to 2 (thorough: 3) simultaneous faults, rendered YAML goes through the real ReadConfig, TLC validates acceptance, absence of a partially initialised object and unchanged values. The gtp5g version window is decided against the simulated netlink endpoint (second part of this check)."),
  "C02": ("driver-l2", "§6 C02", "RuleXlate.tla: translation of Create/Update PDR and FAR grouped IEs to bags of netlink leaves, on octets (no truncation, shift or cross-wiring can go unnoticed; 64-bit SEIDs need no arithmetic). TLC enumerates the structures (optional IEs present/absent/repeated, up/downlink, 1-/2-octet apply action, outer-header-creation forms) and checks order-independence of the reference; the harness concretises values (boundary classes, random octets, 64-bit SEIDs) and permutes the children; the REAL gtp5g driver runs against a simulated gtp5g netlink endpoint whose own attribute walker decodes each request; TLC validates every recorded request."),
  "C03": ("driver-l2", "§6 C03", "As C02 for QER, URR and BAR (40-bit rates split high32/low8, trigger words, every non-empty threshold/quota flag subset, 64-bit volumes); the periodic registration is observed as the OIDs of the GET_MULTI_REPORTS issued on an injected tick after Create URR and after Remove URR, judged against a ghost registration set."),
+ "C13": ("fullstack-l2", "§6 C13", "MonL2.tla: ghost FIFO per (session, PDR) built from the BUFFER notifications the simulated kernel emitted; bounded capacity (newest dropped), downlink-data notification iff NOCP, on Update FAR with a new apply action exactly the queued packets of the FAR's PDRs in order, once, to the FAR's peer / TEID / first non-zero QFI (parsed by an independent G-PDU reader at simulated gNB sockets), nothing on DROP, nothing after session end or SEID re-use; queue lengths compared with the loop-owned snapshot. TLC checks the ideal full-stack model (UpfL2.tla, capacity 2) against the monitor exhaustively, its edges (one model packet = 256 real packets) and seeded random histories with bursts up to 600 packets run on the REAL PfcpServer + gtp5g driver + buffering listener + nl.Mux over the simulated kernel; TLC validates the recorded traces with capacity 512."),
+ "C15": ("fullstack-l2", "§6 C15", "MonL2.tla: ghost registration set from Create/Remove URR and session ends; an injected tick must query exactly the registered (SEID, URR) pairs as a bag over all GET_MULTI_REPORTS batches seen by the simulated kernel, deliver one session report per session with each URR once and flagged PERIO; number of ticker goroutines = number of periods with registrations; after Stop no ticker is left. Ideal model checked exhaustively by TLC, edges and seeded random histories executed on the real stack, traces validated by TLC."),
 }
 L0_NOTE = ("Trusted: TLC 1.8 + CommunityModules Json; the hand transcription of the standards' tables / the statement into the reference module "
            "(its internal consistency is model-checked); the harness's rendering of abstract vectors into concrete inputs.")
 L2_NOTE = ("Trusted: TLC 1.8 + Json; go-gtp5gnl's numeric command / attribute ids (shared by driver and simulated kernel); go-pfcp's IE parser (IEs are built from raw TLV octets and parsed as on receipt); "
            "the simulated kernel (internal/zzverif/simk, overlay) as twin of the gtp5g module - the real module is never run.")
+L2F_NOTE = ("Trusted: TLC 1.8 + Json; the simulated gtp5g kernel (rule tables, GET_* answers incl. FAR->PDR relation, deterministic measurements, BUFFER/REPORT multicasts) as twin of the module; go-pfcp as the SMFs' codec; "
+            "marker notifications / marker period group used by the harness to know that the Mux and the periodic server have drained (no sleeps as oracles).")
 checks = []
 for p in props:
     pid = p["id"]
@@ -42,9 +46,10 @@ for p in props:
         "replay_cmd_template": "./check %s --replay {path}" % pid,
         "engine": eng,
         "level_claimed": {"category": "model_checking", "text": text, "design_ref": ref},
-        "level_note": L1_NOTE if eng == "pfcp-l1" else (L0_NOTE if eng == "pure-l0" else L2_NOTE),
+        "level_note": L1_NOTE if eng == "pfcp-l1" else (L0_NOTE if eng == "pure-l0" else (L2_NOTE if eng == "driver-l2" else L2F_NOTE)),
         "technique": ("explicit TLA+ spec (ideal model + property monitors), TLC exhaustive check, TLC-generated paths replayed on the real code, TLC trace validation of recorded executions" if eng == "pfcp-l1" else
                       "explicit TLA+ translation reference (RuleXlate.tla), TLC-enumerated IE structures driven through the real gtp5g driver into a simulated netlink kernel, TLC trace validation of the decoded requests" if eng == "driver-l2" else
+                      "explicit TLA+ spec (full-stack ideal model UpfL2.tla + monitors MonL2.tla), TLC exhaustive check, TLC-generated paths replayed on the real stack over a simulated gtp5g kernel, TLC trace validation" if eng == "fullstack-l2" else
                       "explicit TLA+ reference function, TLC-enumerated test vectors evaluated by the real code, TLC trace validation of the recorded results"),
     })
 na = [{"property_id": p["id"], "reason": "check under construction in this round (not yet registered); see DESIGN.md"} for p in props if p["id"] not in CLAIMS]
@@ -60,6 +65,8 @@ m = {
     "kind_free_text": "function-level executors (overlay test files) fed with TLC-enumerated vectors; TLA+ reference functions"},
    {"name": "driver-l2", "path": "/verif/harness/{forwarder,simk,perio,buffnetlink}, /verif/spec/{RuleXlate,MC_Rules,Trace_Rules}.tla", "serves_properties": sorted(k for k, v in CLAIMS.items() if v[0] == "driver-l2"),
     "kind_free_text": "real Gtp5g driver + real perio server on a simulated gtp5g generic-netlink endpoint (socketpair nl.Conner, real nl.Mux)"},
+   {"name": "fullstack-l2", "path": "/verif/harness/pfcp/zz_verif_l2_test.go, /verif/spec/{MonL2,UpfL2,MC_L2,Trace_L2}.tla", "serves_properties": sorted(k for k, v in CLAIMS.items() if v[0] == "fullstack-l2") + ["C10"],
+    "kind_free_text": "real PfcpServer + Gtp5g + perio.Server + buffnetlink.Server + nl.Mux wired as pkg/app, simulated kernel, SMFs and gNBs on loopback"},
  ],
  "checks": checks,
  "not_applicable": na,
